@@ -2,6 +2,7 @@
 import base64
 import json
 import os
+
 import subprocess
 import sys
 
@@ -24,14 +25,14 @@ RULE = ("a case places secret fields (aes / xor / best) at the root, in sub-sche
         "opens during dumps/loads contains no key file other than the expected ones, (4) a fresh configuration (new "
         "objects; 1 in 40 in a new process) loading the document gets every plaintext back; non-trivial = >= 2 "
         "non-empty secrets at >= 2 depths; distinct = distinct case content")
-REQUIRED = ("sections_saved_without_a_reference_to_the_root", "saves_failed_for_missing_key_directory", "layout:two-types-one-schema-different-keyfiles", "layout:only-keyed-subtrees", "layout:transplanted-subconfig", "layout:names-inherited-file", "documents_scanned_for_tokens", "ciphertexts_decrypted_by_oracle", "keyfile_open_sets_checked",
+REQUIRED = ("key_file_names_a_shell_would_expand", "failed_loads_before_key_rotation", "saves_after_key_files_were_replaced", "items_handed_over_to_a_second_configuration", "sections_saved_without_a_reference_to_the_root", "saves_failed_for_missing_key_directory", "layout:two-types-one-schema-different-keyfiles", "layout:only-keyed-subtrees", "layout:transplanted-subconfig", "layout:names-inherited-file", "documents_scanned_for_tokens", "ciphertexts_decrypted_by_oracle", "keyfile_open_sets_checked",
             "reloads_compared", "layout:root-ctor", "layout:root-attr", "layout:sub", "layout:ctype", "layout:default",
             "secrets_in_list_items", "rekey_after_first_use", "new_process_reloads")
 ASSUMPTIONS = ["only files under the sandbox root are considered; HOME is redirected so the default key file is sandboxed",
                "ciphertext equality is never compared (fresh IV)", "documents are decoded with the library's codecs (C04)",
                "a key file named on a sub-configuration *instance* is judged for saving only: loading a document rebuilds "
                "sub-configurations, which a key named on the old instance cannot survive (not part of the statement)"]
-POSITIONS = ["s", "lst", "dsec", "a.dsec", "a.s", "a.b.s", "a.b.c.s", "t.s", "t.inner.s", "t2.s", "items", "titems"]
+POSITIONS = ["s", "s2", "lst", "dsec", "a.dsec", "a.s", "a.b.s", "a.b.c.s", "t.s", "t.inner.s", "t2.s", "items", "titems"]
 
 
 def generate(rng, ctx):
@@ -77,7 +78,7 @@ def generate(rng, ctx):
                                   "\u0307\u0323"]) for _ in range(max(0, n - len(tok))))
         return (pad[: len(pad) // 2] + tok + pad[len(pad) // 2:]) if rng.random() < 0.7 else tok
     values = {
-        "s": secret(), "lst": [secret(False) for _ in range(rng.choice([0, 1, 2, 3]))],
+        "s": secret(), "s2": secret(False), "lst": [secret(False) for _ in range(rng.choice([0, 1, 2, 3]))],
         "dsec": {"k%d" % i: secret(False) for i in range(rng.choice([0, 1, 2]))},
         "a.dsec": {"key.%d" % i: secret(False) for i in range(rng.choice([0, 1, 2]))}, "a.s": secret(), "a.b.s": secret(),
         "a.b.c.s": secret(), "t.s": secret(), "t.inner.s": secret(), "t2.s": secret(),
@@ -85,7 +86,7 @@ def generate(rng, ctx):
         "titems": [{"s": secret(), "n": i} for i in range(rng.choice([0, 1, 2]))],
     }
     if layout.get("only_keyed_subtrees"):
-        values.update({"s": "", "lst": [], "dsec": {}, "items": []})
+        values.update({"s": "", "s2": "", "lst": [], "dsec": {}, "items": []})
     elif rng.random() < (0.02 if thorough else 0.006):
         # one secret longer than 64 KiB (certificate bundles are): nothing of it may be lost
         pos = rng.choice(["s", "a.s", "t.s"])
@@ -96,6 +97,16 @@ def generate(rng, ctx):
                 methods["t2.s"] = "xor"
         layout["big_secret"] = pos
     layout["orphan_section"] = rng.random() < 0.2
+    # the root's key file carries a name a shell would expand (the variable VFSTAGE is set to "prod" in the process)
+    if layout["root"] and not layout["keydir_late"] and rng.random() < 0.2:
+        layout["rootkey_name"] = rng.choice(["app-$VFSTAGE.key", "${VFSTAGE}.key", "$VFSTAGE", "%VFSTAGE%.key"])
+    # the same secret twice in the list of secrets
+    if values["lst"] and rng.random() < 0.35:
+        values["lst"].insert(rng.randrange(len(values["lst"]) + 1), rng.choice(values["lst"]))
+    # after the saves: (a failed load, then) every key file gets new content from outside and the SAME object is saved again
+    layout["rotate"] = rng.choice([None, None, "plain", "after-failed-load"])
+    # ... and items are handed over, as objects, to a second configuration that names another key file
+    layout["move_items"] = rng.random() < 0.3
     fmts = rng.sample(trees.FORMATS, rng.choice([1, 2, 3]))
     return {"layout": layout, "methods": methods, "values": values, "fmts": fmts, "newproc": rng.random() < 0.025,
             "r": rng.getrandbits(20)}
@@ -114,6 +125,7 @@ def build_schema(cc, case, d):
     root = cc.Schema()
     root.name = cc.StringField(default="app")
     root.s = cc.SecureField(method=m["s"])
+    root.s2 = cc.SecureField(method=m.get("s2", m["s"]))  # a second secret right next to the first
     root.lst = cc.ListField(cc.SecureField(method=m["lst"]))
     root.dsec = cc.DictField(cc.StringField(), cc.SecureField(method=m["dsec"]))
     root.a.dsec = cc.DictField(cc.StringField(), cc.SecureField(method=m["a.dsec"]))
@@ -166,12 +178,13 @@ def expected_keys(case, d, default, rootkey="root.key", sub=True):
     tk = os.path.join(d, "root.key" if lay.get("T_same") else "T.key") if lay["T"] else rk
     tik = os.path.join(d, "TI.key") if lay["TI"] else rk
     t2k = os.path.join(d, "T2.key") if lay.get("T2") else rk
-    return {"t2.s": t2k, "s": rk, "lst": rk, "dsec": rk, "a.dsec": ak, "a.s": ak, "a.b.s": abk, "a.b.c.s": abk, "t.s": tk, "t.inner.s": tk, "items": rk,
+    return {"t2.s": t2k, "s": rk, "s2": rk, "lst": rk, "dsec": rk, "a.dsec": ak, "a.s": ak, "a.b.s": abk, "a.b.c.s": abk, "t.s": tk, "t.inner.s": tk, "items": rk,
             "titems": tik}
 
 
 def fill(cfg, values):
     cfg.s = values["s"]
+    cfg.s2 = values.get("s2", "")
     cfg.lst = list(values["lst"])
     cfg.dsec = dict(values.get("dsec", {}))
     cfg.a.dsec = dict(values.get("a.dsec", {}))
@@ -188,7 +201,7 @@ def fill(cfg, values):
 
 def secret_positions(values):
     """[(position, path-in-tree as list, plaintext)]"""
-    out = [("s", ["s"], values["s"]), ("a.s", ["a", "s"], values["a.s"]), ("a.b.s", ["a", "b", "s"], values["a.b.s"]),
+    out = [("s", ["s"], values["s"]), ("s2", ["s2"], values.get("s2", "")), ("a.s", ["a", "s"], values["a.s"]), ("a.b.s", ["a", "b", "s"], values["a.b.s"]),
            ("a.b.c.s", ["a", "b", "c", "s"], values["a.b.c.s"]), ("t.s", ["t", "s"], values["t.s"]),
            ("t.inner.s", ["t", "inner", "s"], values["t.inner.s"])]
     if "t2.s" in values:
@@ -216,7 +229,7 @@ def dig(tree, path):
 
 def read_values(cfg):
     return {
-        "s": cfg.s, "lst": list(cfg.lst or []), "dsec": dict(cfg.dsec or {}), "a.dsec": dict(cfg.a.dsec or {}), "a.s": cfg.a.s, "a.b.s": cfg.a.b.s, "a.b.c.s": cfg.a.b.c.s, "t.s": cfg.t.s,
+        "s": cfg.s, "s2": cfg.s2, "lst": list(cfg.lst or []), "dsec": dict(cfg.dsec or {}), "a.dsec": dict(cfg.a.dsec or {}), "a.s": cfg.a.s, "a.b.s": cfg.a.b.s, "a.b.c.s": cfg.a.b.c.s, "t.s": cfg.t.s,
         "t.inner.s": cfg.t.inner.s, "t2.s": cfg.t2.s,
         "items": [{"s": it.s, "sub": {"s": it.sub.s}, "n": it.n} for it in (cfg.items or [])],
         "titems": [{"s": it.s, "n": it.n} for it in (cfg.titems or [])],
@@ -243,7 +256,14 @@ def run(case, ctx, res):
             with open(p, "wb") as fp:
                 fp.write(bytes((case["r"] + 7 * i + j * 13) % 256 for j in range(32)))
     schema = build_schema(cc, case, d)
-    rootkey = "root.key"
+    rootkey = lay.get("rootkey_name") or "root.key"
+    if lay.get("rootkey_name"):
+        os.environ["VFSTAGE"] = "prod"  # (the sandbox restores the environment after the case)
+        res.count("key_file_names_a_shell_would_expand")
+        allkeys += [os.path.join(d, n) for n in (lay["rootkey_name"], "app-prod.key", "prod.key", "prod")]
+        if lay["existing"]:
+            with open(os.path.join(d, rootkey), "wb") as fp:
+                fp.write(bytes((case["r"] + 3 * j + 1) % 256 for j in range(32)))
     if lay.get("keydir_late") and lay["root"]:
         rootkey = os.path.join("late", "root.key")
     cfg = make_config(cc, schema, case, d, rootkey)
@@ -294,6 +314,43 @@ def run(case, ctx, res):
                 return
     if lay.get("big_secret"):
         res.count("secrets_longer_than_64KiB")
+    last_key = rounds[-1][1]
+    if lay.get("rotate") and not (lay["a"] or lay["ab"] or lay.get("transplant_a")):
+        fmt = case["fmts"][0]
+        if lay["rotate"] == "after-failed-load":
+            # a document of this very configuration, with one value made unacceptable: the load fails half way
+            try:
+                codec = cc.ConfigFormat.get(fmt)
+                tree = codec.loads(cfg, cfg.dumps(fmt))
+                tree["name" if case["r"] % 2 else "a"] = 5 if case["r"] % 2 else dict(tree["a"], plain="not-a-number")
+                doc = codec.dumps(cfg, tree)
+            except Exception:
+                doc = None
+            if doc is not None:
+                try:
+                    cfg.loads(doc, fmt)
+                    res.count("load_expected_to_fail_succeeded")
+                except Exception:
+                    res.count("failed_loads_before_key_rotation")
+                # whatever the failed load left behind, the secrets are the same plaintexts
+                try:
+                    fill(cfg, case["values"])
+                except Exception as exc:
+                    res.viol("M-save", "refill-after-failed-load", "assigning the secrets again after a failed load raised %r" % (exc,))
+                    return
+        # somebody replaces the content of every key file while no save or load is in progress
+        for i, pth in enumerate(allkeys):
+            if os.path.isfile(pth):
+                with open(pth, "wb") as fp:
+                    fp.write(bytes((case["r"] * 3 + 11 * i + j * 29 + 5) % 256 for j in range(32)))
+        res.count("saves_after_key_files_were_replaced")
+        exp = expected_keys(case, d, default, last_key)
+        for fmt in case["fmts"][:2]:
+            if not _save_and_check(cc, ctx, res, case, cfg, schema, fmt, positions, exp, log, allkeys, "rotated", last_key):
+                return
+    if lay.get("move_items") and (case["values"]["items"] or case["values"]["titems"]):
+        if not _move_items(cc, ctx, res, case, cfg, schema, default):
+            return
     # only a SECTION of the tree is kept by the caller (the root goes out of scope): its secrets still belong to the key
     # file of the ancestors it was built under
     if lay.get("orphan_section"):
@@ -452,6 +509,52 @@ def _save_and_check(cc, ctx, res, case, cfg, schema, fmt, positions, exp, log, a
         if _norm(val) != _norm(plain):
             res.viol("M-reload", "plaintext-differs:%s" % rname, "%s: secret %s reloads as %r, not %r" % (
                 fmt, ".".join(map(str, path)), _short(val), _short(plain)))
+            return False
+    return True
+
+
+def _move_items(cc, ctx, res, case, cfg, schema, default):
+    """Items of `cfg` are handed over as objects to a second configuration with another key file; its save must encrypt
+    them with ITS key file (config-type items: with the type's own, when it names one)."""
+    d, lay = ctx.dir, case["layout"]
+    other = cc.Config(schema, key_filename=os.path.join(d, "donor.key"))
+    fill(other, dict(case["values"], items=[], titems=[]))
+    moved = []
+    try:
+        if len(cfg.items):
+            it = cfg.items.pop(0) if case["r"] % 2 else cfg.items[0]
+            other.items.append(it)
+            moved.append((["items", 0, "s"], case["values"]["items"][0]["s"], os.path.join(d, "donor.key")))
+            moved.append((["items", 0, "sub", "s"], case["values"]["items"][0]["sub"]["s"], os.path.join(d, "donor.key")))
+        if len(cfg.titems):
+            it = cfg.titems[0] if case["r"] % 2 else cfg.titems.pop(0)
+            other.titems = [it]
+            moved.append((["titems", 0, "s"], case["values"]["titems"][0]["s"], os.path.join(d, "TI.key" if lay["TI"] else "donor.key")))
+    except Exception as exc:
+        res.viol("M-save", "move-items-raises", "handing an item over to a second configuration raised %r" % (exc,))
+        return False
+    fmt = case["fmts"][-1]
+    try:
+        tree = cc.ConfigFormat.get(fmt).loads(other, other.dumps(fmt))
+    except Exception as exc:
+        res.viol("M-save", "dumps-raises:moved-items", "dumps(%s) of the configuration that took the items over raised %s: %s" % (
+            fmt, type(exc).__name__, str(exc)[:200]))
+        return False
+    res.count("items_handed_over_to_a_second_configuration")
+    for path, plain, keyfile in moved:
+        if not plain:
+            continue
+        try:
+            entry = dig(tree, path)
+            with open(keyfile, "rb") as fp:
+                key = fp.read()
+            ct = base64.b64decode(entry["ciphertext"])
+            got = aes_ref.aes_decrypt(key, ct) if entry["method"] == "aes" else aes_ref.xor_stream(key, ct)
+        except Exception as exc:
+            got = exc
+        if got != plain.encode():
+            res.viol("M-key", "wrong-key:moved-item", "%s: secret %s of an item taken over from another configuration does not decrypt "
+                     "under the key file of the configuration that holds it now (%s)" % (fmt, ".".join(map(str, path)), os.path.basename(keyfile)))
             return False
     return True
 
